@@ -601,6 +601,7 @@ func (t *Dense) Zero() {
 		if err := t.zeroIter(it); err != nil {
 			panic(err)
 		}
+		return
 	}
 	if t.IsMasked() {
 		t.ResetMask()
